@@ -48,11 +48,16 @@ def InvE2 (c : Cfg) (s : State) : Prop :=
   s.lastErr = true → s.canceled = false → s.timedOut = false → ∃ j, j < c.n ∧ (s.nd j).status = .error
 /-- (X) no command starts after `wg.Wait()` -/
 def InvX (c : Cfg) (s : State) : Prop := s.loop.inH = true → totalExecs c s = s.execsAtWait
+/-- (G) in an unstopped run a worker that is past `execStart`, or at `tail` with its node still `running`,
+    has executed (`ran`): `tail` then writes `success`, never `cancel` -/
+def InvG (s : State) : Prop :=
+  s.canceled = false → ∀ j, ((s.nd j).pc = .exec ∨ (s.nd j).pc = .wErr ∨ (s.nd j).pc = .wTimeout ∨
+    (s.nd j).pc = .retrySleep ∨ ((s.nd j).pc = .tail ∧ (s.nd j).status = .running)) → (s.nd j).ran = true
 
 /-- closing tactic for one branch of `step_cases` -/
 macro "step_close" : tactic =>
   `(tactic| ((try simp only [updN_apply, isFinished_iff, workersDone_iff, PC.active_iff,
-      InvN, InvL, InvR, InvB, InvT, InvW, InvQ, InvA, InvE1, InvC2, Blk, InvO, InvX] at *) <;> grind))
+      InvN, InvL, InvR, InvB, InvT, InvW, InvQ, InvA, InvE1, InvC2, Blk, InvO, InvX, InvG] at *) <;> grind))
 
 theorem step_canceled_mono (hs : step c s a = some s') (h : s'.canceled = false) : s.canceled = false := by
   step_cases a hs <;> step_close
@@ -161,7 +166,17 @@ theorem lastErr_new (hs : step c s a = some s') (hT : InvT s) (hR : InvR c s)
     a.node < c.n ∧ (s'.nd a.node).status = .error := by
   step_cases a hs <;> simp only [Act.node] <;> step_close
 
-theorem invC2_step (hs : step c s a = some s') (hN : InvN s) (hT : InvT s) (ih : InvC2 s) :
+theorem invG_step (hs : step c s a = some s') (ih : InvG s) : InvG s' := by
+  intro hc j
+  have hr := isReady_label c s
+  step_cases a hs <;> (try simp only [afterPC] at *) <;> step_close
+
+theorem invG (hr : Reach c s) : InvG s := by
+  induction hr with
+  | init => intro _ j; simp [init]
+  | step a hr hs ih => exact invG_step hs ih
+
+theorem invC2_step (hs : step c s a = some s') (hN : InvN s) (hT : InvT s) (hG : InvG s) (ih : InvC2 s) :
     InvC2 s' := by
   intro hc ht j
   step_cases a hs <;> step_close
@@ -169,31 +184,31 @@ theorem invC2_step (hs : step c s a = some s') (hN : InvN s) (hT : InvT s) (ih :
 theorem invC2 (hn : NoRep c) (hr : Reach c s) : InvC2 s := by
   induction hr with
   | init => intro _ _ j; simp [init]
-  | step a hr hs ih => exact invC2_step hs (invN hn hr) (invT hr) ih
+  | step a hr hs ih => exact invC2_step hs (invN hn hr) (invT hr) (invG hr) ih
 
 theorem blk_stable (hs : step c s a = some s') (hL : InvL c s) (hB : InvB s) (hC : InvC2 s)
     (hc : s'.canceled = false) (ht : s'.timedOut = false) (d : Nat) (h : Blk c s d) : Blk c s' d := by
   step_cases a hs <;> step_close
 
-theorem cancel_new (hs : step c s a = some s') (hT : InvT s)
+theorem cancel_new (hs : step c s a = some s') (hT : InvT s) (hG : InvG s)
     (hc : s'.canceled = false) (ht : s'.timedOut = false) (j : Nat)
     (h0 : (s.nd j).status ≠ .cancel) (h1 : (s'.nd j).status = .cancel) :
     (isReady c s j).2 = some .cancel := by
   step_cases a hs <;> step_close
 
 theorem invC_step (hs : step c s a = some s') (hL : InvL c s) (hB : InvB s) (hC : InvC2 s)
-    (hT : InvT s) (ih : InvC c s) : InvC c s' := by
+    (hT : InvT s) (hG : InvG s) (ih : InvC c s) : InvC c s' := by
   intro hc ht j hj
   by_cases h0 : (s.nd j).status = .cancel
   · obtain ⟨d, hd, hb⟩ := ih (step_canceled_mono hs hc) (step_timedOut_mono hs ht) j h0
     exact ⟨d, hd, blk_stable hs hL hB hC hc ht d hb⟩
-  · obtain ⟨d, hd, hb⟩ := isReady_cancel c s j (cancel_new hs hT hc ht j h0 hj)
+  · obtain ⟨d, hd, hb⟩ := isReady_cancel c s j (cancel_new hs hT hG hc ht j h0 hj)
     exact ⟨d, hd, blk_stable hs hL hB hC hc ht d hb⟩
 
 theorem invC (hn : NoRep c) (hr : Reach c s) : InvC c s := by
   induction hr with
   | init => intro _ _ j; simp [init]
-  | step a hr hs ih => exact invC_step hs (invL hn hr) (invB hn hr) (invC2 hn hr) (invT hr) ih
+  | step a hr hs ih => exact invC_step hs (invL hn hr) (invB hn hr) (invC2 hn hr) (invT hr) (invG hr) ih
 
 theorem invE2_step (hs : step c s a = some s') (hL : InvL c s) (hB : InvB s) (hT : InvT s)
     (hR : InvR c s) (ih : InvE2 c s) : InvE2 c s' := by
